@@ -160,7 +160,7 @@ def oracle_and_corr(ctx):
 
 
 def check(ctx):
-    ok_gen = core.step_gen(ctx, ['Consts', 'Blocks'])
+    ok_gen = core.step_gen(ctx, ['Consts', 'Blocks', 'Coord'])
     prove = core.step_prove(ctx, MODS) if ok_gen else {'module': ' '.join(MODS), 'obligations': 0, 'discharged': 0}
     core.step_drv(ctx) if (ok_gen or ctx.search_mode) else False
     ok_impl = core.step_build_impl(ctx)
